@@ -35,7 +35,13 @@ RULE = ('cases = (instance, quantity, unit, T shape, P, x, S_elements, use_refer
         'in exactly its own stored unit and in the others, with every option; plus an explicit-value sweep: every '
         'wrapper x T shape x unit x one boolean / optional option (S_elements, use_references, verbose, include_ZPE, '
         'rev, act, raise_error, raise_warning) passed EXPLICITLY as False, as None or as its default - the values '
-        'the option axes (omitted | switched on) never pass')
+        'the option axes (omitted | switched on) never pass; plus a composition-route sweep (f): species built from an '
+        'ASE Atoms object next to / instead of `elements` (Atoms = cell of an adsorbate on a 12-atom slab with the '
+        'adsorbate or adsorbate + one slab atom stated; Atoms agreeing with `elements`; Atoms alone) and empirical '
+        'objects made by from_model (explicit elements disagreeing with model.elements; inherited from the model; '
+        'model class + atoms + elements through a preset) x quantity x unit x (no option | one option), the '
+        'reference molar mass and the S_elements shift computed from the composition the check handed over; '
+        'and the two-object histories over these instances')
 ASSUMPTIONS = ['the gas constant and the mass conversion factors are read from pmutt.constants (their accuracy '
                'is property C12); the reference combines them independently of pmutt._get_R_adj; only the RATIO '
                'between two table entries is also compared with SI conversion factors (pmc/ref/c04_units.py, 1e-7)',
@@ -86,6 +92,27 @@ INSTANCES = {
     'reaction': ['rxn_sm_ts', 'rxn_sm', 'rxn_nasa', 'rxn_mixed', 'rxn_bep', 'chemkin_ts', 'chemkin',
                  'surf_ts', 'surf', 'chemkin_ts_low', 'surf_ts_low', 'rxn_int_ts'],
 }
+# ---- composition given through more than one route (fifth round of seeded changes).  Every instance above
+# receives its composition through `elements=` alone.  A species is just as often built from an ASE Atoms object
+# (`atoms=`, the calculation cell) together with - or instead of - `elements`, and an empirical object from a
+# model that has a composition of its own (`from_model(model, elements=...)`, documented: "if not passed,
+# model.elements will be used").  ROUTE_INSTANCES = every combination (second source absent | agreeing |
+# disagreeing: larger, or sharing an element with the stated composition) x (explicit elements given | omitted);
+# meta['elements'] is the composition the CHECK handed over (for `atoms` alone: counted from the chemical
+# symbols of the Atoms object), never read back from the object.  They are explored by sweep (f) and by the
+# two-object histories of group 'route', not by the deviation sets.
+ROUTE_INSTANCES = {
+    'species': ['sm_atoms_slab', 'sm_atoms_part', 'sm_atoms_same', 'sm_atoms_only'],
+    'empirical': ['nasa_fm_explicit', 'nasa_fm_inherit', 'nasa_fm_class', 'shomate_fm_class', 'shomate_fm_inherit',
+                  'nasa9_fm_class'],
+}
+ROUTE_OF = {'sm_atoms_slab': 'atoms+elements:disagree', 'sm_atoms_part': 'atoms+elements:disagree',
+            'sm_atoms_same': 'atoms+elements:agree', 'sm_atoms_only': 'atoms-only',
+            'nasa_fm_explicit': 'from_model:explicit-disagrees-with-model', 'nasa_fm_inherit': 'from_model:inherited',
+            'nasa_fm_class': 'from_model:class+atoms+elements', 'shomate_fm_class': 'from_model:class+atoms+elements',
+            'shomate_fm_inherit': 'from_model:inherited', 'nasa9_fm_class': 'from_model:class+atoms+elements'}
+ROUTE_UNITS = {'quick': R_KEYS + PER_MASS_SHORT + ['cal/kg/K', 'L atm/lbs/K', 'kcal/amu/K'], 'thorough': R_KEYS + PER_MASS}
+ROUTE_OPT_UNITS = [BASE_UNIT, 'J/mol/K', 'cal/mol/K', 'eV/K', 'J/g/K']
 QUANTITIES = {
     'mode': ['H', 'Cv', 'Cp', 'U', 'S', 'F', 'G'],
     'species': ['H', 'Cv', 'Cp', 'U', 'E', 'S', 'F', 'G'],
@@ -133,7 +160,8 @@ DEVIATIONS = {'quick': 3, 'thorough': 5}
 # (asked of EVERY instance: its own stored unit as well as the others') plus one per-mass form.
 STORED_UNIT = {'shomate_gas': 'J/mol/K', 'shomate_surf': 'J/mol/K', 'shomate_plain': 'J/mol/K',
                'shomate_int': 'J/mol/K', 'shomate_kJ': 'kJ/mol/K', 'shomate_cal_surf': 'cal/mol/K',
-               'shomate_eV': 'eV/K', 'rxn_mixed': 'J/mol/K'}
+               'shomate_eV': 'eV/K', 'rxn_mixed': 'J/mol/K',
+               'shomate_fm_class': 'J/mol/K', 'shomate_fm_inherit': 'J/mol/K'}
 UNIT_SWEEP = {
     'mode': ['J/mol/K', 'cal/mol/K', 'eV/K'],
     'species': ['J/mol/K', 'cal/mol/K', 'eV/K', 'J/g/K'],
@@ -172,24 +200,26 @@ XOPT_T = UNIT_SWEEP_T
 # (how, A, B, quantity, form, unit); the sequence is A, B, A again - each value against the object's OWN
 # dimensionless twin and composition - then A.elements is edited in place and A is asked once more.
 COMPOSED = [i for i in INSTANCES['species'] + INSTANCES['empirical'] if i not in ('sm_noel', 'nasa_noel')]
-PAIR_GROUPS = {'composition': COMPOSED, 'reaction': INSTANCES['reaction'], 'mode': INSTANCES['mode']}
+ROUTED = ROUTE_INSTANCES['species'] + ROUTE_INSTANCES['empirical']
+PAIR_GROUPS = {'composition': COMPOSED, 'reaction': INSTANCES['reaction'], 'mode': INSTANCES['mode'], 'route': ROUTED}
 PAIR_QUANTITIES = {'composition': QUANTITIES['empirical'], 'reaction': QUANTITIES['reaction'],
-                   'mode': QUANTITIES['mode']}
-PAIR_FORMS = {'composition': ['plain'], 'mode': ['plain'], 'reaction': ['delta', 'act']}
-PAIR_HOW = ['separate', 'deepcopy-edit', 'dict-edit']       # the last two for the composition group only
+                   'mode': QUANTITIES['mode'], 'route': QUANTITIES['empirical']}
+PAIR_FORMS = {'composition': ['plain'], 'mode': ['plain'], 'reaction': ['delta', 'act'], 'route': ['plain']}
+PAIR_HOW = ['separate', 'deepcopy-edit', 'dict-edit']       # the last two for the composition and route groups only
 PAIR_UNITS = {
     'quick': {'composition': ['kJ/mol/K', 'J/g/K', 'cal/kg/K', 'eV/K'], 'reaction': ['kJ/mol/K', 'eV/K'],
-              'mode': ['kJ/mol/K', 'eV/K']},
+              'mode': ['kJ/mol/K', 'eV/K'], 'route': ['kJ/mol/K', 'J/g/K']},
     'thorough': {'composition': R_KEYS + PER_MASS_SHORT + ['cal/kg/K', 'L atm/lbs/K', 'kcal/amu/K'],
-                 'reaction': R_KEYS, 'mode': R_KEYS},
+                 'reaction': R_KEYS, 'mode': R_KEYS,
+                 'route': R_KEYS + PER_MASS_SHORT + ['cal/kg/K', 'L atm/lbs/K', 'kcal/amu/K']},
 }
 
 
 def _gen_pairs(tier):
-    for group in ('composition', 'reaction', 'mode'):
+    for group in ('composition', 'reaction', 'mode', 'route'):
         insts = PAIR_GROUPS[group]
         for how in PAIR_HOW:
-            if how != 'separate' and group != 'composition':
+            if how != 'separate' and group not in ('composition', 'route'):
                 continue
             others = [(a, b) for a in insts for b in insts if a != b] if how == 'separate' \
                 else [(a, a) for a in insts]
@@ -213,6 +243,9 @@ PLANNED_TAGS = ['kind:mode', 'kind:species', 'kind:empirical', 'kind:reaction',
                 'effective:verbose', 'effective:include_ZPE', 'effective:kwblock', 'effective:rev',
                 'effective:act', 'effective:del_m', 'effective:del_m=None',
                 'refused:per-mass-without-composition', 'agree:both-forms-raise', 'effective:use_references=None'] + \
+               ['route:' + r_ for r_ in sorted(set(ROUTE_OF.values()))] + \
+               ['route:second-source-has-another-composition', 'route:effective:S_elements',
+                'hist:route-pair'] + \
                ['explicit:' + x_ for x_ in XOPTS['reaction']] + \
                ['unit:the-stored-unit-of-the-object(%s)' % u_ for u_ in sorted(set(STORED_UNIT.values()))] + \
                ['stored-unit:%s+effective:%s' % (w_, o_) for w_ in ('asked', 'another-asked')
@@ -245,6 +278,11 @@ def bounds(tier):
                                                'option passed explicitly with a value of {False, None, True} that its '
                                                'own axis never passes', values=XOPT_VALUES, units=XOPT_UNITS[tier],
                                           T_shapes=XOPT_T[tier] or 'every T shape of the kind'),
+                composition_routes=dict(instances=ROUTE_INSTANCES, route=ROUTE_OF, units=ROUTE_UNITS[tier],
+                                        option_units=ROUTE_OPT_UNITS,
+                                        T_shapes=['T500'] if tier == 'quick' else 'every T shape of the kind',
+                                        what='instance x quantity x unit, and x one option away from the defaults '
+                                             'in option_units; two-object histories of group route'),
                 shards=N_SHARDS)
 
 
@@ -352,6 +390,27 @@ def _gen(tier):
                                 c.update(inst=inst, q=q, form=f, rev=rv, act=ac, T=T, unit=unit, xopt=xopt)
                                 if _applicable(kind, c):
                                     yield kind, c
+    # sweep (f): the instances whose composition arrives through more than one route (ROUTE_INSTANCES):
+    # instance x quantity x unit with default options, and instance x quantity x unit of the unit sweep x one
+    # option away from its defaults; thorough: the same for every T shape of the kind and every unit
+    for kind in ('species', 'empirical'):
+        base = _base(kind)
+        alts = _alts(kind)
+        single = [(a, v) for a in SWEEP_AXES for v in alts.get(a, [])]
+        T_shapes = [base['T']] if tier == 'quick' else [base['T']] + alts['T']
+        for inst in ROUTE_INSTANCES[kind]:
+            for q in QUANTITIES[kind]:
+                for T in T_shapes:
+                    for unit in ROUTE_UNITS[tier]:
+                        c = dict(base)
+                        c.update(inst=inst, q=q, unit=unit, T=T)
+                        yield kind, c
+                    for unit in ROUTE_OPT_UNITS:
+                        for a, v in single:
+                            c = dict(base)
+                            c.update(inst=inst, q=q, unit=unit, T=T)
+                            c[a] = v
+                            yield kind, c
     for c in _gen_pairs(tier):
         yield 'pair', c
 
@@ -424,6 +483,30 @@ def _h2o(**kw):
 
 def _h2o_ts():
     return _gas('H2O_TS', {'H': 2, 'O': 1}, 18.015, [3000., 1200.], -13.1, [38., 22., 14.], 1, 'nonlinear')
+
+
+_ATOMS = {}
+
+
+def _atoms(key):
+    """A fresh copy of an ASE Atoms object: a water molecule, or CO on top of a 2x2x3 Pt(111) slab."""
+    if key not in _ATOMS:
+        from ase.build import fcc111, add_adsorbate, molecule
+        if key == 'H2O':
+            _ATOMS[key] = molecule('H2O')
+        else:
+            slab = fcc111('Pt', size=(2, 2, 3), vacuum=8.)
+            add_adsorbate(slab, molecule('CO'), height=1.9, position='ontop')
+            _ATOMS[key] = slab
+    return _ATOMS[key].copy()
+
+
+def _count(atoms):
+    """Composition of an Atoms object counted from its chemical symbols (no formula string, no pMuTT parser)."""
+    out = {}
+    for sym in atoms.get_chemical_symbols():
+        out[sym] = out.get(sym, 0) + 1
+    return out
 
 
 def build(name):
@@ -549,6 +632,60 @@ def build(name):
         m['elements'] = {'C': 1, 'O': 1}
         m['kwblock'] = {'O(S)_kwargs': {'x': 0.7}}
         return _shomate('CO(S)', 'S', {'C': 1, 'O': 1}, misc_models=[_cov('CO(S)', 'O(S)')]), m
+    # ---- composition through more than one route (ROUTE_INSTANCES)
+    if name in ROUTE_OF:
+        from pmutt.empirical.nasa import Nasa
+        from pmutt.empirical.shomate import Shomate
+        m['route'] = ROUTE_OF[name]
+        co_wn = [2050., 420., 380., 350., 60., 55.]
+        ads = dict(vib_wavenumbers=list(co_wn), potentialenergy=-16.3, spin=0.)
+        gas = dict(symmetrynumber=2, vib_wavenumbers=list(H2O_WN), potentialenergy=-14.2209, spin=0.)
+        if name in ('sm_atoms_slab', 'sm_atoms_part'):
+            # an adsorbate: the Atoms object is the calculation cell (12 Pt + C + O), `elements` the species
+            m['elements'] = {'C': 1, 'O': 1} if name == 'sm_atoms_slab' else {'C': 1, 'O': 1, 'Pt': 1}
+            m['kwblock'] = {'CO(S)_kwargs': {'P': 5.}}
+            m['second_source'] = _count(_atoms('CO/Pt12'))
+            return StatMech(name='CO(S)', atoms=_atoms('CO/Pt12'), elements=dict(m['elements']), **ads,
+                            **presets['harmonic']), m
+        if name == 'sm_atoms_same':
+            m['elements'] = {'H': 2, 'O': 1}
+            m['second_source'] = _count(_atoms('H2O'))
+            return StatMech(name='H2O', atoms=_atoms('H2O'), elements={'H': 2, 'O': 1}, **gas,
+                            **presets['idealgas']), m
+        if name == 'sm_atoms_only':
+            at = _atoms('H2O')
+            m['elements'] = _count(at)          # counted here from the symbols of the Atoms object handed over
+            return StatMech(name='H2O', atoms=at, **gas, **presets['idealgas']), m
+        if name == 'nasa_fm_explicit':
+            # the model states the formula unit H2O, the caller asks for the dimer H4O2
+            m['elements'] = {'H': 4, 'O': 2}
+            m['second_source'] = {'H': 2, 'O': 1}
+            return Nasa.from_model(model=_h2o(), T_low=250., T_high=2000., phase='G',
+                                   elements={'H': 4, 'O': 2}), m
+        if name == 'nasa_fm_inherit':
+            # composition inherited twice: model.elements, itself stated next to the cell of the calculation
+            m['elements'] = {'C': 1, 'O': 1}
+            m['kwblock'] = {'CO(S)_kwargs': {'P': 5.}}
+            m['second_source'] = _count(_atoms('CO/Pt12'))
+            model = StatMech(name='CO(S)', atoms=_atoms('CO/Pt12'), elements={'C': 1, 'O': 1}, **ads,
+                             **presets['harmonic'])
+            return Nasa.from_model(model=model, T_low=250., T_high=2000., phase='S'), m
+        if name == 'shomate_fm_inherit':
+            at = _atoms('H2O')
+            m['elements'] = _count(at)
+            model = StatMech(name='H2O', atoms=at, **gas, **presets['idealgas'])
+            return Shomate.from_model(model=model, T_low=250., T_high=2000., phase='G'), m
+        if name in ('nasa_fm_class', 'shomate_fm_class', 'nasa9_fm_class'):
+            # the documented short form: the preset supplies the model CLASS, from_model builds the model from
+            # the keyword arguments (atoms, elements, ...) and keeps `elements` for the empirical object
+            cls = {'nasa_fm_class': Nasa, 'shomate_fm_class': Shomate, 'nasa9_fm_class': Nasa9}[name]
+            m['elements'] = {'C': 1, 'O': 1}
+            m['kwblock'] = {'CO(S)_kwargs': {'P': 5.}}
+            m['second_source'] = _count(_atoms('CO/Pt12'))
+            extra = dict(T_mid=[1000.], fit_T_mid=False) if cls is Nasa9 else {}     # no search for the seam
+            return cls.from_model(name='CO(S)', T_low=250., T_high=2000., phase='S', elements={'C': 1, 'O': 1},
+                                  atoms=_atoms('CO/Pt12'), **ads, **extra, **presets['harmonic']), m
+        raise KeyError(name)
     # ---- reactions
     if name in ('rxn_sm_ts', 'rxn_sm'):
         ts = [_h2o_ts()] if name == 'rxn_sm_ts' else None
@@ -717,6 +854,8 @@ def signature(c):
                getter=getter_names(kind, c['q'], c['form'])[0], unit=unit_family(c['unit']),
                opts='+'.join(deviating_options(c)) or 'none',
                T=T_SIG.get(c['T'], 'scalar'))
+    if c['inst'] in ROUTE_OF:
+        sig['route'] = ROUTE_OF[c['inst']]    # how the composition reached the object
     if STORED_UNIT.get(c['inst']) == c['unit']:
         sig['stored_unit'] = 'asked'          # the request names exactly the unit string the object stores
     return sig
@@ -740,7 +879,7 @@ def _in_pmutt(e):
 # ----------------------------------------------------------------- evaluation
 def kind_of(inst):
     for k, v in INSTANCES.items():
-        if inst in v:
+        if inst in v or inst in ROUTE_INSTANCES.get(k, ()):
             return k
     raise KeyError(inst)
 
@@ -801,6 +940,10 @@ def evaluate(c, ctx):
     ctx.tag('form:' + form.split(':')[0])
     if c.get('xopt'):
         ctx.tag('explicit:' + c['xopt'])
+    if meta.get('route'):
+        ctx.tag('route:' + meta['route'])
+        if meta.get('second_source') and meta['second_source'] != meta['elements']:
+            ctx.tag('route:second-source-has-another-composition')
 
     # ---- per-mass unit on an object without composition: must be refused
     elements = meta['elements'] if kind in ('species', 'empirical') else None
@@ -906,6 +1049,17 @@ def evaluate(c, ctx):
             if lhs is not None:
                 ctx.close('options shift the dimensional and the dimensionless form identically', lhs, rhs, sig,
                           c, rtol=1e-10, atol=0.0, scale=sc)
+            if lhs is not None and dev == ['S_elements'] and elements and \
+                    (q in ('S', 'G') or (q == 'F' and kind == 'species')):
+                # clause 9: the entropy-of-elements option refers to the composition the species was GIVEN:
+                # S/R falls, F/RT and G/RT rise by sum n_el x S_el/R (pmutt.constants.S_elements, summed here)
+                from pmutt import constants as c_
+                S_ele = sum(c_.S_elements[el] * n for el, n in sorted(elements.items()))
+                ctx.close('S_elements shifts the dimensionless value by the element entropies of the composition '
+                          'the species was given', nd - nd0, np.zeros_like(nd) + (-S_ele if q == 'S' else S_ele),
+                          sig, c, rtol=1e-10, atol=0.0, scale=np.abs(nd) + np.abs(nd0) + 1.0)
+                if meta.get('route'):
+                    ctx.tag('route:effective:S_elements')
             if _differs(nd, nd0):
                 interesting = True
                 if len(dev) == 1:
@@ -1041,6 +1195,9 @@ def evaluate_pair(c, ctx):
     ctx.state(('pair', how, c['a'], c['b'], q, form, unit))
     ctx.trace()
     ctx.tag('hist:' + how)
+    if c['a'] in ROUTE_OF:
+        ctx.tag('hist:route-pair')
+        ctx.tag('route:' + ROUTE_OF[c['a']])
     if elA and elB and sorted(elA) == sorted(elB) and elA != elB:
         ctx.tag('hist:same-element-set')
     ctx.tag('unit:' + fam)
@@ -1119,7 +1276,11 @@ CLASS_OF = {'sm_gas': 'StatMech', 'sm_ads': 'StatMech', 'sm_ref': 'StatMech', 's
             'rxn_sm_ts': 'Reaction', 'rxn_sm': 'Reaction', 'rxn_nasa': 'Reaction', 'rxn_mixed': 'Reaction',
             'rxn_bep': 'Reaction', 'chemkin_ts': 'ChemkinReaction', 'chemkin': 'ChemkinReaction',
             'surf_ts': 'SurfaceReaction', 'surf': 'SurfaceReaction',
-            'chemkin_ts_low': 'ChemkinReaction', 'surf_ts_low': 'SurfaceReaction'}
+            'chemkin_ts_low': 'ChemkinReaction', 'surf_ts_low': 'SurfaceReaction',
+            'sm_atoms_slab': 'StatMech', 'sm_atoms_part': 'StatMech', 'sm_atoms_same': 'StatMech',
+            'sm_atoms_only': 'StatMech', 'nasa_fm_explicit': 'Nasa', 'nasa_fm_inherit': 'Nasa',
+            'nasa_fm_class': 'Nasa', 'shomate_fm_class': 'Shomate', 'shomate_fm_inherit': 'Shomate',
+            'nasa9_fm_class': 'Nasa9'}
 
 LEVEL_TEXT = ('Deviation-bounded exhaustive product enumeration on the real getters: every combination of model '
               'instance, quantity, unit string (all 16 gas-constant keys plus the per-mass forms), temperature '
@@ -1134,7 +1295,10 @@ LEVEL_TEXT = ('Deviation-bounded exhaustive product enumeration on the real gett
               'other (library factor and SI factor), and the option shift on both forms; then repeats the call '
               '(after overwriting the returned container), checks that the arguments were left alone and, for array '
               'T, edits the array in place and calls again. Two-object histories (separately built, deep-copied and '
-              'to_dict/from_dict copies edited after creation) are evaluated A, B, A in one process.')
+              'to_dict/from_dict copies edited after creation) are evaluated A, B, A in one process. Species whose '
+              'composition arrives through more than one route (ASE Atoms object next to or instead of elements, '
+              'agreeing or not; from_model with explicit, inherited or class-built composition) go through the same '
+              'clauses with the molar mass and the element entropies of the composition that was handed over.')
 LEVEL_NOTE = ('k = 3 (quick) / 5 (thorough); one parameter set per class (plus integer-typed variants and empirical '
               'species with and without attached models); units outside the gas-constant table, array T for classes '
               'that document a float T and a python-list T for the getters inherited from _ModelBase are outside '
